@@ -85,14 +85,14 @@ func extractLadder(L *Loaded) []ladderLevel {
 			found := false
 			ast.Inspect(cond, func(n ast.Node) bool {
 				if call, ok := n.(*ast.CallExpr); ok {
-					if fn := Callee(info, call); fn != nil && (fn.Name() == "matchAny" || fn.Name() == "matchSeq") {
+					if fn := Callee(info, call); fn != nil && (nameIs(fn, "matchAny") || nameIs(fn, "matchSeq")) {
 						var toks []string
 						for _, a := range call.Args {
 							if sel, ok := a.(*ast.SelectorExpr); ok {
 								toks = append(toks, sel.Sel.Name)
 							}
 						}
-						if fn.Name() == "matchSeq" {
+						if nameIs(fn, "matchSeq") {
 							lv.tokens = append(lv.tokens, strings.Join(toks, "+"))
 						} else {
 							lv.tokens = append(lv.tokens, toks...)
